@@ -1,4 +1,4 @@
-import Cutadapt.Proofs.StepsFate
+import Cutadapt.Proofs.StepsReport
 /-! # C04 — each read is written once or counted as filtered once; totals add up
 
 Model: `Cutadapt.Pipeline` (`stepS`, `stepP`, `runStepsS/P`, `processReadS/P`, `runSingle/runPaired`),
@@ -62,4 +62,97 @@ example : runStepsS [] exSteps 0 (exRead [65, 67]) { original := exRead [65, 67]
     .ok [.filtered 1, .write 0 (exRead [65, 67]) none] := by rfl
 example : runStepsS [] exSteps 0 (exRead [65, 67, 71, 84]) { original := exRead [65, 67, 71, 84] } [] =
     .ok [.write 1 (exRead [65, 67, 71, 84]) none, .sinkStat 3 4 none] := by rfl
+
+/-! ## The statistics are sums over the log -/
+
+/-- `summarize` is a monoid homomorphism from event logs (with `++`) to summaries with componentwise addition
+    (`IsSum`; the per-step and per-length tables are compared entry by entry through `getCount`). -/
+theorem summarize_append (a b : List Event) : IsSum (summarize (a ++ b)) [summarize a, summarize b] := by
+  simpa using summarize_flatten [a, b]
+
+/-- every reported figure of an error-free run is the sum of the figures of the individual reads -/
+theorem figures_are_sums_over_reads_single {p : SinglePipeline} {reads : List Read} {evs : List Event}
+    (h : runSingle p reads = (evs, none)) :
+    evs = (reads.map (evsOf (processReadS p))).flatten ∧
+    IsSum (summarize evs) (reads.map (fun r => summarize (evsOf (processReadS p) r))) :=
+  ⟨(run_is_concat h).1, summarize_run h⟩
+
+theorem figures_are_sums_over_reads_paired {p : PairedPipeline} {reads : List (Read × Read)} {evs : List Event}
+    (h : runPaired p reads = (evs, none)) :
+    evs = (reads.map (evsOf (processReadP p))).flatten ∧
+    IsSum (summarize evs) (reads.map (fun r => summarize (evsOf (processReadP p) r))) :=
+  ⟨(run_is_concat h).1, summarize_run h⟩
+
+/-- Single-end totals of an error-free run: the input count is the number of reads; input = written + Σ filter counters;
+    the written count is the number of `sinkStat` events; input bases are the bases of the reads; and, when no redirect
+    file shares a writer with the last step, written reads / bases are exactly the records that the writers of the last
+    step received. -/
+theorem counts_add_up_single {p : SinglePipeline} {reads : List Read} {evs : List Event}
+    (ht : Terminal p.steps) (h : runSingle p reads = (evs, none)) :
+    (summarize evs).n = reads.length ∧
+    (summarize evs).n = (summarize evs).written + ((summarize evs).filteredByStep.map (·.2)).sum ∧
+    (summarize evs).written = evs.countP isSinkStat ∧
+    (summarize evs).bp1 = (reads.map Read.len).sum ∧
+    (summarize evs).bp2 = 0 ∧
+    (RedirectsApart p.steps →
+      (summarize evs).written = (recordsTo (lastWriters p.steps) evs).length ∧
+      (summarize evs).writtenBp1 = ((recordsTo (lastWriters p.steps) evs).map (·.1.len)).sum ∧
+      (summarize evs).writtenBp2 = 0 ∧
+      ∀ x ∈ recordsTo (lastWriters p.steps) evs, x.2 = none) := by
+  have hlog : ∀ r e, processReadS p r = .ok e → ∃ r1 r2, ReadLog p.steps (Read.len r) ((fun _ => none) r) r1 r2 e :=
+    fun r e he => by obtain ⟨r', _, _, _, _, hl⟩ := processReadS_log ht he; exact ⟨r', none, hl⟩
+  obtain ⟨h1, h2, h3, h4, h5, h6⟩ := counts_of_logs hlog h
+  refine ⟨h1, h2, h3, h4, by rw [h5]; exact sum_map_zero _, fun hd => ?_⟩
+  obtain ⟨g1, g2, g3⟩ := h6 hd
+  have hnone : ∀ x ∈ recordsTo (lastWriters p.steps) evs, x.2 = none := by
+    intro x hx
+    rw [(run_is_concat h).1] at hx
+    simp only [recordsTo, List.mem_filterMap, List.mem_flatten, List.mem_map] at hx
+    obtain ⟨ev, ⟨l, ⟨r, hr, rfl⟩, hev⟩, hx⟩ := hx
+    obtain ⟨r', _, _, _, _, cnt, texts, tail, he, hc, htx, htl⟩ := processReadS_log ht ((run_is_concat h).2 r hr)
+    cases ev with
+    | write w a b =>
+      split at hx
+      · simp only [Option.some.injEq] at hx
+        subst hx
+        rw [he] at hev
+        simp only [List.mem_cons, reduceCtorEq, false_or, List.mem_append] at hev
+        rcases hev with hev | hev
+        · have := hc _ hev; simp [isCounter] at this
+        · have := fate_of_tail htx htl
+          cases htl with
+          | written k s w' e hk hl hf hw he' =>
+            rcases hev with hev | hev
+            · have := htx _ hev; simp [isText] at this
+            · rcases he' with rfl | rfl <;> simp at hev <;> simp [hev]
+          | filtered k s w' hk hi hs =>
+            rcases hev with hev | hev
+            · have := htx _ hev; simp [isText] at this
+            · cases w' <;> simp [redir] at hev
+              simp [hev]
+      · simp at hx
+    | _ => simp at hx
+  refine ⟨g1, g2, ?_, hnone⟩
+  rw [g3]
+  have : ∀ x ∈ recordsTo (lastWriters p.steps) evs, (x.2.map Read.len).getD 0 = 0 := fun x hx => by simp [hnone x hx]
+  rw [List.map_congr_left this]
+  exact sum_map_zero _
+
+/-- Paired-end totals of an error-free run. -/
+theorem counts_add_up_paired {p : PairedPipeline} {reads : List (Read × Read)} {evs : List Event}
+    (ht : Terminal p.steps) (h : runPaired p reads = (evs, none)) :
+    (summarize evs).n = reads.length ∧
+    (summarize evs).n = (summarize evs).written + ((summarize evs).filteredByStep.map (·.2)).sum ∧
+    (summarize evs).written = evs.countP isSinkStat ∧
+    (summarize evs).bp1 = (reads.map (·.1.len)).sum ∧
+    (summarize evs).bp2 = (reads.map (·.2.len)).sum ∧
+    (RedirectsApart p.steps →
+      (summarize evs).written = (recordsTo (lastWriters p.steps) evs).length ∧
+      (summarize evs).writtenBp1 = ((recordsTo (lastWriters p.steps) evs).map (·.1.len)).sum ∧
+      (summarize evs).writtenBp2 = ((recordsTo (lastWriters p.steps) evs).map (fun x => (x.2.map Read.len).getD 0)).sum) := by
+  have hlog : ∀ r e, processReadP p r = .ok e →
+      ∃ r1 r2, ReadLog p.steps ((fun r : Read × Read => r.1.len) r) ((fun r : Read × Read => some r.2.len) r) r1 r2 e :=
+    fun r e he => by obtain ⟨r', _, _, _, _, hl⟩ := processReadP_log ht he; exact ⟨r'.1, some r'.2, hl⟩
+  obtain ⟨h1, h2, h3, h4, h5, h6⟩ := counts_of_logs hlog h
+  exact ⟨h1, h2, h3, h4, by simpa using h5, h6⟩
 end Cutadapt.C04
